@@ -107,8 +107,9 @@ class McsHarness(symex.Harness):
     def on_path(self, eng, res):
         self.counts[res[0]] += 1
         m = eng.vc(Z.Not(self.good(res)))
-        if m is not None and len(self.viol) < 20:
-            self.viol.append(dict(res=list(res), vars={str(v): concretise.model_int(m, v) for v in self.sb.vars}))
+        if m is not None and len(self.viol) < 60:
+            for mm in eng.models(Z.Not(self.good(res)), self.sb.vars, 8):
+                self.viol.append(dict(res=list(res), vars={str(v): concretise.model_int(mm, v) for v in self.sb.vars}))
         if res[0] == "ok":
             k = "returned_%d_sets" % len(res[1])
             self.witness[k] = self.witness.get(k, 0) + 1
@@ -117,7 +118,10 @@ class McsHarness(symex.Harness):
             if ms is not None:
                 self.samples.append(dict(config=self.label, result=list(res), tables={str(v): concretise.model_int(ms, v) for v in self.sb.vars}))
 
-    def replay(self, cand):
+    def replay_variants(self):
+        return ["rc2-g4", "rc2-cd", "rc2-m22", "rc2-mgh", "rc2-mc", "rc2-mcb", "rc2-gc3", "rc2-gc4", "rc2-mpl", "rc2-mcm", "rc2-g42", "rc2-cd15", "rc2-cd19", "rc2-mep", "rc2-mg3"]
+
+    def replay_steps(self, cand, variant=None):
         vars_ = cand["vars"]
         tt.set_universe(self.N)
         lv = ops.leafval_of(vars_)
@@ -128,7 +132,36 @@ class McsHarness(symex.Harness):
             base.append([pos + 1, c, a, "(%s|%s)" % (concretise.tree_to_text(c), concretise.tree_to_text(a))])
         hc = concretise.formula_tree(self.sb.side("QB", 0), lv)
         ha = concretise.formula_tree(self.sb.side("QA", 0), lv)
-        src = '''
+        return [{"op": "exec", "src": _SRC, "base": base, "hc": hc, "ha": ha, "ignore": self.ignore,
+                 "engine": variant or self.engine}]
+
+    def replay_judge(self, cand, variant, results, steps):
+        vars_ = cand["vars"]
+        st = results[0]
+        rec = dict(harness=self.label, tables=vars_, job={"atoms": list(CTX.atom_names), "steps": steps}, real={"steps": results},
+                   symbolic_result=cand["res"], engine=variant or self.engine)
+        if "exc" in st:
+            rec["observed"] = ["exc"] + list(st["exc"])
+            # an engine that cannot run RC2 at all is not a usable engine
+            return "error", rec
+        res = ("ok", st["ok"])
+        rec["observed"] = list(res)
+        s = Z.Solver()
+        for v in self.sb.vars:
+            s.add(v == vars_[str(v)])
+        s.add(Z.Not(self.good(res)))
+        rec["expected"] = "exactly the inclusion-minimal falsification sets over the models of the hard clauses"
+        return ("confirmed" if s.check() == Z.sat else "not_reproduced"), rec
+
+    def replay(self, cand):
+        steps = self.replay_steps(cand, cand.get("variant"))
+        out = concretise.run_real({"atoms": list(CTX.atom_names), "steps": steps})
+        if "steps" not in out:
+            return "error", dict(harness=self.label, tables=cand["vars"], real=out)
+        return self.replay_judge(cand, cand.get("variant"), out["steps"], steps)
+
+
+_SRC = '''
 from pysat.formula import WCNF
 from inference.belief_base import BeliefBase
 from inference.conditional import Conditional
@@ -146,18 +179,3 @@ for i, cnf in es["nf_cnf_dict"].items():
         for c in cnf: w.append(c, weight=1)
 result = [sorted(int(x) for x in s) for s in create_optimizer(es).minimal_correction_subsets(w, ignore=list(st["ignore"]))]
 '''
-        job = {"atoms": list(CTX.atom_names), "steps": [{"op": "exec", "src": src, "base": base, "hc": hc, "ha": ha,
-                                                          "ignore": self.ignore, "engine": self.engine}]}
-        out = concretise.run_real(job)
-        rec = dict(harness=self.label, tables=vars_, job=job, real=out, symbolic_result=cand["res"])
-        if "steps" not in out:
-            return "error", rec
-        st = out["steps"][0]
-        res = ("exc",) + tuple(st["exc"]) if "exc" in st else ("ok", st["ok"])
-        rec["observed"] = list(res)
-        s = Z.Solver()
-        for v in self.sb.vars:
-            s.add(v == vars_[str(v)])
-        s.add(Z.Not(self.good(res)))
-        rec["expected"] = "exactly the inclusion-minimal falsification sets over the models of the hard clauses"
-        return ("confirmed" if s.check() == Z.sat else "not_reproduced"), rec
